@@ -43,6 +43,10 @@ def run(F, rep, tier):
     # global late and rejected in the order that closes it first
     import core
     import c02
+    # .. and no requirement on a type that is not known *yet* is decided on the spot: which of two independent functions over an
+    # open global (`handlers := []`) is checked first is a matter of source order
+    import c08
+    core.borrow(rep, c08.unknown_is_deferred, lambda o: o["rule"] == "INFERENCE" and "=>error" in o["key"], F)
     core.borrow(rep, lambda F_, r_: c02.copy_discipline(F_, r_),
                 lambda o: o["key"] in ("environment|every-variable-of-the-surroundings-is-a-start", "environment|every-reached-node-is-kept"), F)
 
